@@ -202,6 +202,8 @@ def mvn_store_vc(bessel, delete_stats):
                  ("std_is_a_square_root", z3.BoolVal(bool(is_sqrt))), ("its_argument_is_the_clamped_variance", arg == z3.If(var >= 0, var, 0)),
                  ("std_is_the_root_of_the_clamped_variance", z3.Implies(z3.And(sqrt_contract, arg == z3.If(var >= 0, var, 0)), z3.And(std >= 0, std * std == z3.If(var >= 0, var, 0)))),
                  ("statistics_dropped_iff_asked", z3.BoolVal(all((f.get(k) is None) == delete_stats for k in ("count", "sum", "sumsq"))))]
+        if not delete_stats and all(hasattr(f.get(k), "elem") for k in ("count", "sum", "sumsq")):
+            goals.append(("kept_statistics_are_unchanged", z3.And(ip.to_z3(f["count"].elem(0)) == C, ip.to_z3(f["sum"].elem(I0)) == SM(I0), ip.to_z3(f["sumsq"].elem(I0)) == SQ(I0))))
         return goals
 
     return VC("C18.P.mvn_store_formula", name, "pydrobert.torch._feats", "MeanVarianceNormalization.store", thunk, pre=[X >= 1, 0 <= I0, I0 < X, C >= 0], posts=[("population_moments", post)],
